@@ -21,6 +21,9 @@ struct FIX8_MessageBase;
 struct vec_m { struct FIX8_MessageBase **items; unsigned long n; };      /* GroupElement: std::vector<MessageBase *> */
 struct gb_m { struct vec_m _msgs; };
 struct gent_m { unsigned short first; struct gb_m *second; };
+struct minst_m { int _do; };
+struct bme_m { struct minst_m _create; };
+struct ctx_m { int _bme; };
 struct giter_m { struct gent_m *p; };
 '''
 PRELUDE = r'''
@@ -46,17 +49,29 @@ void fent_ctor_u(struct fent_m *e, const unsigned *k, struct bf_m **v) { e->firs
 void fmap_insert(struct fmap_m *m, struct fent_m *e) { __CPROVER_assume(m->n < 4); m->ents[m->n++] = *e; }
 void fmap_clear(struct fmap_m *m) { m->n = 0; }
 struct bf_m *bf_copy(const struct bf_m *f) { __CPROVER_assume(g_ncopies < 4); g_copies[g_ncopies] = *f; return &g_copies[g_ncopies++]; }     /* virtual BaseField::copy(): an equal field, a new object */
-struct gb_m *mb_find_group(const void *self, unsigned short fnum) { return 0; }                         /* no repeating groups in these parts */
+/* ---- repeating groups: at most one group per part, with at most one element, in these harnesses ---- */
+const void *g_srcp, *g_dstp; struct gb_m *g_src_group, *g_dst_group; unsigned short g_group_fnum;
+int g_created, g_added_elems, g_elem_copies; const void *g_elem_copy_from, *g_elem_copy_to, *g_added_to; struct FIX8_MessageBase *g_new_elem;
+int g_group_adds, g_group_replaces; const struct gb_m *g_group_given; struct gent_m g_gent;
+struct gb_m *mb_find_group(const void *self, unsigned short fnum) { if (fnum != g_group_fnum) return 0; return self == g_srcp ? g_src_group : self == g_dstp ? g_dst_group : 0; }
 struct FIX8_MessageBase **vec_begin(const struct vec_m *v) { return v->items; }
 struct FIX8_MessageBase **vec_end(const struct vec_m *v) { return v->items + v->n; }
-struct FIX8_MessageBase *gb_create_group(const struct gb_m *g, _Bool deep) { return 0; }
-struct gb_m *gb_add(struct gb_m *g, struct FIX8_MessageBase *m) { return g; }
-void mb_add_group(struct FIX8_MessageBase *self, struct gb_m *g) { }
-struct gb_m *mb_replace_group(struct FIX8_MessageBase *self, unsigned short fnum, struct gb_m *with) { return 0; }
+struct FIX8_MessageBase *gb_create_group(const struct gb_m *g, _Bool deep) { g_created++; return g_new_elem; }
+struct gb_m *gb_add(struct gb_m *g, struct FIX8_MessageBase *m) { g_added_elems++; g_added_to = g; return g; }
+void mb_add_group(struct FIX8_MessageBase *self, struct gb_m *g) { g_group_adds++; g_group_given = g; }
+struct gb_m *mb_replace_group(struct FIX8_MessageBase *self, unsigned short fnum, struct gb_m *with) { g_group_replaces++; g_group_given = with; return 0; }
+struct FIX8_MessageBase;
 struct bf_m *mb_replace(struct FIX8_MessageBase *self, unsigned short fnum, const struct ft_m *itr, struct bf_m *with) { g_replaced++; return 0; }
 void __verif_delete(void *p) { }
-struct gent_m g_gent;
-struct giter_m gmap_find(struct gmap_m *g, const unsigned short *k) { struct giter_m it; it.p = &g_gent; return it; }
+/* ---- Message::clone: the message table and the instantiator ---- */
+struct FIX8_Message; struct bme_m g_bme; struct FIX8_Message *g_new_msg;
+const struct bme_m *bme_find_ref(const void *tab, const char *msgtype) { return &g_bme; }
+const char *msgtype_c_str(const long *s) { return "D"; }
+struct FIX8_Message *bme_create(const int *inst, _Bool deep) { return g_new_msg; }
+int g_clone_copies; const void *g_clone_from[3], *g_clone_to[3]; _Bool g_clone_force[3];
+unsigned clone_copy_legal(const struct FIX8_MessageBase *from, struct FIX8_MessageBase *to, _Bool force)
+{ __CPROVER_assume(g_clone_copies < 3); g_clone_from[g_clone_copies] = from; g_clone_to[g_clone_copies] = to; g_clone_force[g_clone_copies] = force; g_clone_copies++; return nondet_uint(); }
+struct giter_m gmap_find(struct gmap_m *g, const unsigned short *k) { struct giter_m it; g_gent.first = *k; it.p = &g_gent; return it; }
 struct gent_m *giter_arrow(const struct giter_m *it) { return it->p; }
 '''
 POST = r'''
@@ -119,6 +134,54 @@ void h_copy(void)
   }
   VACUITY_PROBE();
 }
+/* one repeating group with one element: copy creates an element in the target's group and copies the source element into it; move hands over the group object */
+static void mk_group_case(struct FIX8_MessageBase *src, struct FIX8_MessageBase *dst, struct bf_m *sf, struct bf_m *df, struct gb_m *sg, struct gb_m *dg, struct FIX8_MessageBase **items, struct FIX8_MessageBase *elem, struct FIX8_MessageBase *newelem)
+{
+  mk_part(src, 1, sf); mk_part(dst, 0, df);
+  __CPROVER_assume(src->_fp._presence.n >= 1 && dst->_fp._presence.n >= 1 && src->_fp._presence.arr[0]._fnum == dst->_fp._presence.arr[0]._fnum && (src->_fp._presence.arr[0]._field_traits & (1u << K_present)));
+  src->_fp._presence.arr[0]._field_traits |= (unsigned short)(1u << K_group); g_group_fnum = src->_fp._presence.arr[0]._fnum;
+  elem->_fp._presence.n = 0; elem->_fields.n = 0; elem->_pos.n = 0; newelem->_fp._presence.n = 0; newelem->_fields.n = 0; newelem->_pos.n = 0;
+  items[0] = elem; sg->_msgs.items = items; sg->_msgs.n = 1; dg->_msgs.items = items + 1; dg->_msgs.n = 0;
+  g_srcp = src; g_dstp = dst; g_src_group = sg; g_dst_group = dg; g_new_elem = newelem; g_gent.second = sg;
+  g_created = 0; g_added_elems = 0; g_group_adds = 0; g_group_replaces = 0; g_group_given = 0; g_ncopies = 0; g_replaced = 0; __exc = 0;
+}
+void h_copy_group(void)
+{
+  struct FIX8_MessageBase src, dst, elem, newelem; struct bf_m sf[3], df[3]; struct gb_m sg, dg; struct FIX8_MessageBase *items[2];
+  mk_group_case(&src, &dst, sf, df, &sg, &dg, items, &elem, &newelem);
+  unsigned r = mb_copy_legal(&src, &dst, 0);
+  __CPROVER_assert(__exc || (g_created == 1 && g_added_elems == 1 && g_added_to == (const void *)&dg), "C11.copy.every_element_of_a_source_group_gets_a_new_element_in_the_target_s_group");
+  __CPROVER_assert(__exc || count_of(&dst, g_group_fnum) == 1, "C11.copy.the_group_count_field_is_copied_too");
+  VACUITY_PROBE();
+}
+void h_move_group(void)
+{
+  struct FIX8_MessageBase src, dst, elem, newelem; struct bf_m sf[3], df[3]; struct gb_m sg, dg; struct FIX8_MessageBase *items[2];
+  mk_group_case(&src, &dst, sf, df, &sg, &dg, items, &elem, &newelem);
+  _Bool target_has_group = nondet_bool(); if (!target_has_group) g_dst_group = 0;
+  unsigned r = mb_move_legal(&src, &dst, 0);
+  __CPROVER_assert(__exc || (g_group_given == &sg && g_group_adds + g_group_replaces == 1 && (target_has_group ? g_group_replaces == 1 : g_group_adds == 1)), "C11.move.the_source_group_object_goes_to_the_target_replacing_its_empty_one_or_added");
+  __CPROVER_assert(__exc || g_gent.second == 0, "C11.move.source_no_longer_refers_to_the_moved_group");
+  VACUITY_PROBE();
+}
+/* Message::clone: a fresh message of the same type, then body, header and trailer copied part by part, never with force */
+void h_clone(void)
+{
+  struct FIX8_Message src, dst; struct FIX8_MessageBase sh, st, dh, dt;
+  src._header = &sh; src._trailer = &st; dst._header = &dh; dst._trailer = &dt; g_new_msg = &dst; g_clone_copies = 0; __exc = 0;
+  struct FIX8_Message *r = msg_clone(&src);
+  __CPROVER_assert(r == &dst, "C11.clone.returns_the_new_message");
+  __CPROVER_assert(g_clone_copies == 3, "C11.clone.three_parts_are_copied");
+  _Bool body = 0, header = 0, trailer = 0;
+  for (int i = 0; i < 3; ++i) if (i < g_clone_copies) {
+    if (g_clone_from[i] == (const void *)&src.__base && g_clone_to[i] == (const void *)&dst.__base) body = 1;
+    if (g_clone_from[i] == (const void *)&sh && g_clone_to[i] == (const void *)&dh) header = 1;
+    if (g_clone_from[i] == (const void *)&st && g_clone_to[i] == (const void *)&dt) trailer = 1;
+    __CPROVER_assert(!g_clone_force[i], "C11.clone.parts_are_copied_without_force");
+  }
+  __CPROVER_assert(body && header && trailer, "C11.clone.body_header_and_trailer_each_go_to_the_matching_part_of_the_new_message");
+  VACUITY_PROBE();
+}
 /* move_legal into an empty target */
 void h_move(void)
 {
@@ -157,17 +220,20 @@ UNIT = dict(
         may_throw={'mb_add_field': True},
         pod=[r'std::basic_string<char>', r'std::_Rb_tree_(const_)?iterator<.*>'],
         type_alias=[(r'(FIX8::)?Presence::const_iterator', 'const FIX8::FieldTrait *'), (r'(FIX8::)?Presence::iterator', 'FIX8::FieldTrait *')],
-        default_args={'ebit_set': {1: '1'}, 'ft_get1': {1: 'K_present'}, 'ft_set2': {1: 'K_present'}},
+        default_args={'clone_copy_legal': {1: '0'}, 'ebit_set': {1: '1'}, 'ft_get1': {1: 'K_present'}, 'ft_set2': {1: 'K_present'}},
         type_map=[(PS, 'struct pres_m'), (r'FIX8::Presence', 'struct pres_m'), (r'FIX8::FieldTrait', 'struct ft_m'), (r'FIX8::FieldTrait::FieldType', 'int'),
                   (r'FIX8::FieldTrait::TraitTypes', 'unsigned int'), (r'FIX8::ebitset<FIX8::FieldTrait::TraitTypes, unsigned short>', 'unsigned short'),
                   (r'FIX8::Fields|' + FM, 'struct fmap_m'), (r'FIX8::Positions|' + PM, 'struct fmap_m'), (r'FIX8::Groups|std::map<unsigned short, FIX8::GroupBase \*>', 'struct gmap_m'),
                   (r'std::_Rb_tree_(const_)?iterator<std::pair<const unsigned short, FIX8::BaseField \*>>', 'struct fiter_m'),
                   (r'std::pair<const unsigned short, FIX8::BaseField \*>', 'struct fent_m'),
                   (r'std::_Rb_tree_(const_)?iterator<std::pair<const unsigned short, FIX8::GroupBase \*>>', 'struct giter_m'), (r'std::pair<const unsigned short, FIX8::GroupBase \*>', 'struct gent_m'),
-                  (r'FIX8::BaseField', 'struct bf_m'), (r'FIX8::GroupBase', 'struct gb_m'), (r'FIX8::GroupElement|std::vector<FIX8::MessageBase \*.*>', 'struct vec_m'),
+                  (r'FIX8::BaseField', 'struct bf_m'), (r'FIX8::BaseMsgEntry', 'struct bme_m'), (r'FIX8::Minst', 'struct minst_m'), (r'std::function<FIX8::Message \*\(bool\)>', 'int'),
+                  (r'FIX8::MsgTable|FIX8::GeneratedTable<const char \*, FIX8::BaseMsgEntry>', 'int'), (r'FIX8::F8MetaCntx', 'struct ctx_m'), (r'(std::basic_string<char>|std::string|FIX8::f8String)', 'long'), (r'FIX8::GroupBase', 'struct gb_m'), (r'FIX8::GroupElement|std::vector<FIX8::MessageBase \*.*>', 'struct vec_m'),
                   (r'__gnu_cxx::__normal_iterator<FIX8::MessageBase \*(const )?\*, std::vector<FIX8::MessageBase \*.*>>', 'struct FIX8_MessageBase **'), (r'FIX8::F8MetaCntx', 'void'), (r'FIX8::RealmBase', 'void')],
-        lazy_structs=[r'FIX8::MessageBase', r'FIX8::FieldTraits'],
-        calls_rx=[(r'std::vector<FIX8::MessageBase \*.*>::begin', 'vec_begin'), (r'std::vector<FIX8::MessageBase \*.*>::end', 'vec_end'),
+        lazy_structs=[r'FIX8::MessageBase', r'FIX8::FieldTraits', r'FIX8::Message'],
+        bases={'FIX8::Message': 'FIX8::MessageBase'},
+        calls_rx=[(r'std::function<FIX8::Message \*\(bool\)>::operator\(\)', 'bme_create'), (r'FIX8::GeneratedTable<const char \*, FIX8::BaseMsgEntry>::find_ref', dict(c='bme_find_ref', sig='const FIX8::BaseMsgEntry &(const char *const &) const')),
+                  (r'std::vector<FIX8::MessageBase \*.*>::begin', 'vec_begin'), (r'std::vector<FIX8::MessageBase \*.*>::end', 'vec_end'),
                   (PS + r'::find', 'pres_find'), (PS + r'::end', 'pres_end'), (PS + r'::begin', 'pres_begin'),
                   (r'FIX8::ebitset<FIX8::FieldTrait::TraitTypes, unsigned short>::has', 'ebit_has'), (r'FIX8::ebitset<FIX8::FieldTrait::TraitTypes, unsigned short>::set', 'ebit_set'),
                   (r'FIX8::ebitset<FIX8::FieldTrait::TraitTypes, unsigned short>::operator&', 'ebit_and'),
@@ -188,12 +254,12 @@ UNIT = dict(
             'std::pair<const unsigned short, FIX8::BaseField *>::pair|void (const unsigned short &, FIX8::BaseField *&)': 'fent_ctor',
             'std::pair<const unsigned short, FIX8::BaseField *>::pair': 'fent_ctor_u',
             MB + '::find_group': 'mb_find_group', 'FIX8::GroupBase::create_group': 'gb_create_group', 'FIX8::GroupBase::operator+=': 'gb_add',
-            MB + '::operator+=': 'mb_add_group', MB + '::copy_legal': 'mb_copy_legal', MB + '::move_legal': 'mb_move_legal', MB + '::get_field': 'mb_get_field', 'FIX8::BaseField::copy': 'bf_copy',
+            MB + '::operator+=': 'mb_add_group', MB + '::copy_legal': 'mb_copy_legal', MB + '::move_legal': 'mb_move_legal', MB + '::get_field': 'mb_get_field', 'FIX8::BaseField::copy': 'bf_copy', 'std::basic_string<char>::c_str': 'msgtype_c_str',
             MB + '::replace': lambda em, n, args: 'mb_replace_group' if len(args) == 2 else dict(c='mb_replace', sig='FIX8::BaseField *(const unsigned short, FIX8::Presence::const_iterator, FIX8::BaseField *)'),
             MB + '::add_field': lambda em, n, args: 'mb_add_field' if len(args) == 1 else 'mb_add_field5', MB + '::clear_positions': 'mb_clear_positions',
         }),
     prelude=PRELUDE,
-    force_fields={MB: [('_fp', FT), ('_fields', 'FIX8::Fields'), ('_pos', 'FIX8::Positions'), ('_groups', 'FIX8::Groups')], FT: [('_presence', 'FIX8::Presence')]},
+    force_fields={'FIX8::Message': [('_header', 'FIX8::MessageBase *'), ('_trailer', 'FIX8::MessageBase *')], MB: [('_fp', FT), ('_fields', 'FIX8::Fields'), ('_pos', 'FIX8::Positions'), ('_groups', 'FIX8::Groups')], FT: [('_presence', 'FIX8::Presence')]},
     functions=[
         dict(q=FT + '::get_presence', sig=None, cname='ft_get_presence'),
         dict(q=FT + '::has', sig='bool (const unsigned short) const', cname='ft_has1'),
@@ -208,13 +274,17 @@ UNIT = dict(
         dict(q=MB + '::add_field', sig='bool (FIX8::BaseField *)', cname='mb_add_field'),
         dict(q=MB + '::copy_legal', sig=None, cname='mb_copy_legal'),
         dict(q=MB + '::move_legal', sig=None, cname='mb_move_legal'),
+        dict(q='FIX8::Message::clone', sig=None, cname='msg_clone', calls={MB + '::copy_legal': 'clone_copy_legal'}),
     ],
     postlude=POST,
     proofs=[
         dict(name='copy', harness='h_copy', properties=['C11'], solvers=['cadical', 'z3'], timeout=dict(quick=600, thorough=1800), floor=5, level='bounded', unwind=6, object_bits=10),
+        dict(name='clone', harness='h_clone', properties=['C11'], solvers=['cadical', 'z3'], timeout=dict(quick=300, thorough=900), floor=4, level='proved-modular', object_bits=10),
+        dict(name='copy_group', harness='h_copy_group', properties=['C11'], solvers=['cadical', 'z3'], timeout=dict(quick=600, thorough=1800), floor=2, level='bounded', unwind=6, object_bits=10),
+        dict(name='move_group', harness='h_move_group', properties=['C11'], solvers=['cadical', 'z3'], timeout=dict(quick=600, thorough=1800), floor=2, level='bounded', unwind=6, object_bits=10),
         dict(name='move', harness='h_move', properties=['C11'], solvers=['cadical', 'z3'], timeout=dict(quick=600, thorough=1800), floor=4, level='bounded', unwind=6, object_bits=10),
     ],
     trusted_base=['ASSUMED: Presence::find / begin / end (K-pset proves the real find), trait bit operations, the field and position maps as small insertion logs, BaseField::copy() yields an equal '
                   'field in a new object, no repeating groups (model bodies in specs/k_copy.py)'],
-    assumptions=['bounded: parts of at most 3 field traits; no repeating groups; the target is an empty part; force = false (what clone() uses)'],
+    assumptions=['bounded: parts of at most 3 field traits; at most one repeating group with one (empty) element; the target is an empty part; force = false (what clone() uses)'],
 )
